@@ -7,4 +7,9 @@ CHECKS = {
   "text": "All 1,774,545 ticks are enumerated against an independent high-precision reference (closeness bound, strict monotonicity, boundary constants); the floor inverse is decided with integers for 3 sqrt prices per tick interval (every 13th interval in quick, all in thorough) plus drawn prices; usable-tick rounding over all ticks x 4 spacings; price<->tick round trips over drawn ticks x decimals x orientation. Exhaustive for the forward map and rounding, sampled for sqrt prices between boundaries (domain ~2^160).",
   "note": "Trusts Python's decimal module at precision 100 for the reference; the floor oracle uses the implementation's own tick->ratio map, tied to the reference by the forward part.",
  },
+ "C07": {
+  "technique": "Hypothesis generated inputs by boundary class against exact Fraction closed forms; deposit/withdraw round trip through the real market",
+  "text": "Generated (price class x range class x decimals x amounts) cases are checked against exact rational re-derivations of the LiquidityAmounts formulas: no over-spend, maximality up to the stated integer-rounding slack, one-sidedness by region, non-negativity, monotonicity, proportionality, closed-form agreement at 1e-30; plus add/remove round trips through UniLpMarket in both orientations with default and explicit sqrt prices. Sampled, not exhaustive: the domain is ~2^160 prices x 1.5e12 tick pairs.",
+  "note": "Trusts fractions.Fraction arithmetic and the tick->ratio map (verified by C06) to place prices on range boundaries.",
+ },
 }
